@@ -116,7 +116,7 @@ package mongokit
 //@ func matchAll$1
 //@   tags C10
 //@   uses order
-//@   locals array arr matches ok value element item
+//@   locals array ok arr matches value element item
 //@   requires spec.wfVal(field) && spec.wfVal(v)
 //@   let ops = spec.arr(v)
 //@   ensures [C10 name=operand-must-be-array] imp(!is(v, VArr), result != nil && result != ErrNotMatched)
@@ -134,7 +134,7 @@ package mongokit
 // ones, or "number" was asked for and the value is of the number class.
 //@ func matchType$1
 //@   tags C10
-//@   locals wantType class typ
+//@   locals class typ wantType
 //@   requires spec.wfVal(field)
 //@   ensures [C10 name=type-table] (result == nil) == ((matchNumberClass && spec.class(field) == 1) || exists(k, 0, len(wantTypes), spec.witness(k) && wantTypes[k] == spec.btype(field)))
 //@   ensures [C10 name=match-or-not] result == nil || result == ErrNotMatched
@@ -258,7 +258,7 @@ package mongokit
 //@ func NewCollection
 //@   tags C15 C02 C03
 //@   modifies ghost.cov, ghost.tree, ghost.tainted
-//@   locals coll
+//@   locals coll err
 //@   ensures [ghostdef] ghost.tainted == upd(old(ghost.tainted), result, false)
 //@   ensures [C15,C02,C03 name=fresh] result != nil && fresh(result)
 //@   ensures [C15 name=coherent] coherent(result)
@@ -275,7 +275,7 @@ package mongokit
 //@   opt loopframe = on
 //@   requires coherent(c)
 //@   modifies ghost.cov, ghost.tree, ghost.tainted
-//@   locals clone
+//@   locals clone name index
 //@   ensures [ghostdef] ghost.tainted == upd(old(ghost.tainted), result, old(ghost.tainted)[c])
 //@   ensures [C03,C15,C02 name=fresh] result != nil && fresh(result)
 //@   ensures [C15,C03 name=coherent] coherent(result)
@@ -309,7 +309,7 @@ package mongokit
 //@   uses lists access
 //@   requires coherent(c) && query != nil && repl != nil
 //@   modifies since(c), *repl, ghost.tainted, ghost.cov, ghost.tree
-//@   locals list
+//@   locals list err replID name index ok modified
 //@   ensures [ghostdef] failTaints(c)
 //@   ensures [C02] imp(err == nil, result0 != nil)
 //@   ensures [C15,C07 name=coherent] imp(err == nil, coherent(c))
@@ -336,7 +336,7 @@ package mongokit
 //@   uses lists access
 //@   requires coherent(c) && query != nil
 //@   modifies since(c), ghost.tainted, ghost.cov, ghost.tree
-//@   locals list newList modified filteredChanges changes
+//@   locals list err newList changes i doc name index ok modified filteredChanges
 //@   ensures [ghostdef] failTaints(c)
 //@   ensures [C02] imp(err == nil, result0 != nil)
 //@   ensures [C15,C07 name=coherent] imp(err == nil, coherent(c))
@@ -384,7 +384,7 @@ package mongokit
 //@   uses access
 //@   requires coherent(c) && query != nil
 //@   modifies since(c), ghost.tainted, ghost.cov, ghost.tree
-//@   locals doc
+//@   locals doc err queryID replID name index ok
 //@   ensures [ghostdef] failTaints(c)
 //@   ensures [C02] imp(err == nil, result0 != nil)
 //@   ensures [C15,C07 name=coherent] imp(err == nil, coherent(c))
@@ -399,7 +399,7 @@ package mongokit
 //@   uses lists
 //@   requires coherent(c) && query != nil
 //@   modifies since(c), ghost.tainted, ghost.cov, ghost.tree
-//@   locals list
+//@   locals list err doc name index ok
 //@   ensures [ghostdef] failTaints(c)
 //@   ensures [C02] imp(err == nil, result0 != nil)
 //@   ensures [C15 name=coherent] imp(err == nil, coherent(c))
@@ -459,7 +459,7 @@ package mongokit
 //@   ensures [C15 name=coherent] imp(err == nil, coherent(c))
 //@   ensures [C15 name=only-drops] all(n, Str, imp(has(c.Indexes, n), old(has(c.Indexes, n)) && c.Indexes[n] == old(c.Indexes[n]))) && ghost.cov == old(ghost.cov)
 //@   ensures [C07,C15 name=id-index-kept] imp(old(has(c.Indexes, "_id_")), has(c.Indexes, "_id_"))
-//@   locals dropped
+//@   locals dropped ok name
 //@   loop 0 invariant imp(old(has(c.Indexes, "_id_")), has(c.Indexes, "_id_"))
 //@   loop 0 invariant (cap(dropped) == 0 || fresh(dropped)) && c.Documents == old(c.Documents) && c.Indexes == old(c.Indexes) && all(n, Str, imp(has(c.Indexes, n), old(has(c.Indexes, n)) && c.Indexes[n] == old(c.Indexes[n])))
 
@@ -638,7 +638,7 @@ package mongokit
 //@   uses access order
 //@   let ch = asptr(ctx.Value, Changes)
 //@   let cur = old(spec.getPath(*doc, path))
-//@   locals result removed arr item match
+//@   locals field arr ok result removed item match err
 //@   requires opCtx(ctx, doc) && spec.wfVal(v)
 //@   ensures [C11,C08 name=absent-is-noop] imp(cur == spec.VMissing, err == nil && *doc == old(*doc) && nothingRecorded(ch))
 //@   ensures [C11 name=target-must-be-array] imp(cur != spec.VMissing && !is(cur, VArr), err != nil && *doc == old(*doc) && nothingRecorded(ch))
@@ -660,7 +660,7 @@ package mongokit
 //@   uses access order
 //@   let ch = asptr(ctx.Value, Changes)
 //@   let cur = old(spec.getPath(*doc, path))
-//@   locals result removed arr targets item match
+//@   locals targets ok field arr result removed item match target err
 //@   requires opCtx(ctx, doc) && spec.wfVal(v)
 //@   ensures [C11 name=operand-must-be-array] imp(!is(v, VArr), err != nil && *doc == old(*doc) && nothingRecorded(ch))
 //@   ensures [C11,C08 name=absent-is-noop] imp(is(v, VArr) && cur == spec.VMissing, err == nil && *doc == old(*doc) && nothingRecorded(ch))
@@ -687,7 +687,7 @@ package mongokit
 //@   let ch = asptr(ctx.Value, Changes)
 //@   let cur = old(spec.getPath(*doc, path))
 //@   let n0 = ite(cur == spec.VMissing, 0, len(spec.arr(cur)))
-//@   locals values arr changed found val modifierForm
+//@   locals values modifierForm vd ok e arr field changed val found existing err
 //@   requires opCtx(ctx, doc) && spec.wfVal(v)
 //@   ensures [C11 name=target-must-be-array] imp(cur != spec.VMissing && !is(cur, VArr) && err == nil, false)
 //@   ensures [C11,C08 name=no-addition-nothing-recorded] imp(!changed, nothingRecorded(ch) && *doc == old(*doc))
@@ -725,7 +725,7 @@ package mongokit
 //@   uses project
 //@   requires projection != nil && forall(i, 0, len(list), list[i] != nil)
 //@   modifies nothing
-//@   locals result
+//@   locals result doc res err
 //@   ensures [C14 name=each-document-on-its-own] imp(err == nil, len(result0) == len(list) && forall(i, 0, len(list), result0[i] != nil && *result0[i] == spec.projected(*list[i], *projection)))
 //@   ensures [C14 name=all-or-error] (err == nil) == forall(i, 0, len(list), spec.projectOK(*list[i], *projection))
 //@   ensures [C14 name=stored-documents-untouched] forall(i, 0, len(list), *list[i] == old(*list[i]))
@@ -812,7 +812,7 @@ package mongokit
 //@ func matchAnd
 //@   tags C10
 //@   requires matchCtx(ctx)
-//@   locals array item query err ok
+//@   locals array ok item query err
 //@   requires spec.wfVal(v)
 //@   modifies nothing
 //@   let ops = spec.arr(v)
@@ -823,7 +823,7 @@ package mongokit
 //@   tags C10
 //@   pure docs
 //@   requires matchCtx(ctx)
-//@   locals array item query err ok
+//@   locals array ok item query err
 //@   requires spec.wfVal(v)
 //@   modifies nothing
 //@   let ops = spec.arr(v)
@@ -846,7 +846,7 @@ package mongokit
 //@ func matchNot
 //@   tags C10
 //@   requires matchCtx(ctx)
-//@   locals query exp err ok
+//@   locals query ok exp err
 //@   requires spec.wfVal(v)
 //@   modifies nothing
 //@   let q = spec.doc(v)
@@ -864,7 +864,7 @@ package mongokit
 //@   let ch = asptr(ctx.Value, Changes)
 //@   let cur = old(spec.getPath(*doc, path))
 //@   let n0 = ite(cur == spec.VMissing, 0, len(spec.arr(cur)))
-//@   locals values arr newArr insertAt modifierForm hasPosition hasSort hasSlice
+//@   locals values positionVal sortVal sliceVal hasPosition hasSort hasSlice modifierForm vd ok e arr field insertAt p err newArr s keep changes startIdx i val
 //@   requires opCtx(ctx, doc) && spec.wfVal(v)
 //@   ensures [C11 name=target-must-be-array] imp(cur != spec.VMissing && !is(cur, VArr), err != nil)
 //@   ensures [C11 name=plain-value-is-pushed-whole] imp(err == nil && !modifierForm, len(values) == 1 && values[0] == v && !hasPosition && !hasSort && !hasSlice)
